@@ -477,3 +477,11 @@ func (w *World) WrittenAny(snap int, store string) bool { return sym.WrittenAny(
 func (w *World) WrittenOutside(snap int, store string, allowed ...string) bool {
 	return sym.WrittenOutside(snap, store, allowed...)
 }
+
+// validProofFor: a binding-proof signature string that the account `addr` really produced over `message`
+// (symbolically: any string satisfying the reference reading of the proof check).
+func validProofFor(addr, message string) string {
+	s := sym.String("proofsig")
+	sym.Assume(cosmosSigOK(addr, message, s))
+	return s
+}
